@@ -247,10 +247,15 @@ def _compose_sides(f: Func, base_names):
     out = {}
     for n in own_nodes(f.node):
         if isinstance(n, ast.Call) and (dotted(n.func) or "").split(".")[-1] == "compose_qoperations" and len(n.args) == 2:
-            a, b = unparse(n.args[0]), unparse(n.args[1])
-            if a == "dp" and b in base_names:
+            from ..astutil import deep_inline
+            # the depolarising channel is whichever argument is built by a *depolariz* generator; the object is the base
+            xs = [unparse(deep_inline(f, x)) for x in n.args]
+            raw = [unparse(x) for x in n.args]
+            is_dp = ["depolariz" in t_.lower() and r_ not in base_names for t_, r_ in zip(xs, raw)]
+            is_base = [r_ in base_names or t_ in base_names for t_, r_ in zip(xs, raw)]
+            if is_dp[0] and is_base[1] and not is_dp[1]:
                 out[n] = "after"
-            elif b == "dp" and a in base_names:
+            elif is_dp[1] and is_base[0] and not is_dp[0]:
                 out[n] = "before"
             else:
                 out[n] = "?"
